@@ -13,4 +13,8 @@ CLAIMED = {
         "text": "Full proof on the model: check_permutation accepts exactly the permutations of 0..ndim (iff, any length); dim-name and uniform-shape arity checks; the metadata text of both tensor helpers equals the compact print of the configured JSON object and a JSON reader parses it back to exactly that object (general print/parse round trip proved for all JSON values, strings with escapes included); element count = checked product within i32; no panic. Tied to the crate by exhaustive enumeration of all index lists of length ndim<=4 plus random configurations, metadata compared byte for byte; serde_json referee on the Rust side.",
         "note": "JSON spec is the compact reader in coq/Codec/Json.v; element field conversion (transmute_field) is sampled with one element type only. Trusted: Coq kernel, harness, serde_json as referee.",
     },
+    "C15": {
+        "text": "Index-level model of the truncating decimal parser, the float path and format_decimal (slice bounds, usize underflow and the fixed buffer are explicit Panic outcomes). Proved for all inputs: no panic for every u8 precision / i8 scale / text and every i128; every stored value (string and float path) satisfies |v| < 10^precision; copied digits are ASCII digits, at most `precision`. PARTIAL: exactness against the numeral denotation (C15_full) and the format/parse round trip are not yet theorems; they are evaluated as the Coq specification oracle (denote/value_scaled) on every implementation output and by a BigDecimal referee, over all 38 precisions x a scale grid x a numeral family plus random numerals up to 260 digits.",
+        "note": "Only the truncating parser variants (the ones the builder constructs) are modelled. Float path takes trunc(v*10^scale) from the driver (documented lossy step).",
+    },
 }
